@@ -77,6 +77,24 @@ Theorem C17_at_the_limits_roundtrip : forall p gid, wf_param p -> bstr_eqb (p_na
 Proof. exact param_record_roundtrip. Qed.
 Print Assumptions C17_at_the_limits_roundtrip.
 
+(* whatever Parameter::set accepts within the capacity limits IS such a parameter: a fresh parameter given 16-bit integers
+   (or floats) over at most 255 dimensions of at most 255 entries is well formed, hence written and read back unchanged *)
+Theorem C17_set_within_limits_is_well_formed : forall p data dims q,
+  set_ints p data dims = Ok q -> p_floats p = [] -> p_strs p = [] ->
+  name_ok (p_name p) -> desc_ok (p_desc p) -> Forall int16 data ->
+  (let d := dims_or_len dims (nlen data) in (length d <= 255)%nat /\ Forall byte_ok d /\ prodN d < 2147483648 /\ loop_cost d 1 <= LIMC) ->
+  wf_param q.
+Proof. exact set_ints_wf. Qed.
+Print Assumptions C17_set_within_limits_is_well_formed.
+
+Theorem C17_set_floats_within_limits_is_well_formed : forall p data dims q,
+  set_floats p data dims = Ok q -> p_ints p = [] -> p_strs p = [] ->
+  name_ok (p_name p) -> desc_ok (p_desc p) -> Forall wf32 data ->
+  (let d := dims_or_len dims (nlen data) in (length d <= 255)%nat /\ Forall byte_ok d /\ prodN d < 2147483648 /\ loop_cost d 1 <= LIMC) ->
+  wf_param q.
+Proof. exact set_floats_wf. Qed.
+Print Assumptions C17_set_floats_within_limits_is_well_formed.
+
 (* ... and these ARE at the limits: name of 127 characters, description of 255, 255 entries holding both 16-bit extremes *)
 Example C17_limits_are_well_formed :
   wf_param (mkParam (repeat 78 127) (repeat 100 255) true TInt [255] (repeat 32767%Z 127 ++ repeat (-32768)%Z 128) [] []) /\
